@@ -83,7 +83,7 @@ def census(bdir, cfg):
 
 
 def census_tu(methods):
-    lines = ['#include "%s"' % h for h in CENSUS_HDRS]
+    lines = ['#include <new>'] + ['#include "%s"' % h for h in CENSUS_HDRS]
     lines.append('extern "C" { void* gv_census_table[] = {')
     for m in methods:
         if not (m['static'] and m['defined']): continue
@@ -94,6 +94,9 @@ def census_tu(methods):
             pass
         lines.append('  (void*)static_cast<%s>(&%s::%s),' % (ty, m['cls'], m['name']))
     lines.append('  0 }; }')
+    lines.append('extern "C" unsigned long gv_ntt_sizeof() { return sizeof(NTT_Goldilocks); }')
+    lines.append('extern "C" void gv_ntt_construct(void* p, unsigned long maxDomain, unsigned nThreads, int ext) { new (p) NTT_Goldilocks(maxDomain, nThreads, ext); }')
+    lines.append('extern "C" void gv_ntt_destroy(NTT_Goldilocks* p) { p->~NTT_Goldilocks(); }')
     return '\n'.join(lines) + '\n'
 
 
